@@ -54,6 +54,9 @@ def run(ctx):
     c06.decoder_rule(dep(ctx, "C05", "C06"))
     c06.suffix_rule(dep(ctx, "C05", "C06"))
     c06.accessor_rule(dep(ctx, "C05", "C06"))
+    # "the output bytes" are exactly this run's rows: the mapped file is truncated and sized before mapping
+    from . import c17
+    c17.open_rules(dep(ctx, "C05", "C17"))
 
 
 def reader_ownership(ctx, rule):
